@@ -91,6 +91,33 @@ Fixpoint abort_presses (fuel : nat) (evs : list Z) : nat :=
 Definition is_stop_all (f : Z * list Z) : bool :=
   (fst f =? type_motion) && match snd f with [0] => true | _ => false end.
 
+(* the last Abort record of the event list is a press (Abort is held at the end) *)
+Fixpoint abort_held_at_end (fuel : nat) (evs : list Z) (held : bool) : bool :=
+  match fuel with O => held | S f =>
+  match evs with
+  | ty :: num :: v :: t => abort_held_at_end f t (if (ty =? 1) && (num =? 1) then (v =? 1) else held)
+  | _ => held end end.
+(* a motion frame that moves something: a straight drive or a change set with a non-zero value *)
+Fixpoint change_values_zero (fuel : nat) (p : list Z) : bool :=
+  match fuel with O => true | S f =>
+  match p with
+  | _ :: hi :: lo :: t => (hi =? 0) && (lo =? 0) && change_values_zero f t
+  | _ => true end end.
+Definition is_actuating (f : Z * list Z) : bool :=
+  (fst f =? type_motion) &&
+  match snd f with
+  | 5 :: hi :: lo :: _ => negb ((hi =? 0) && (lo =? 0))
+  | 16 :: _ :: t => negb (change_values_zero (length t) t)
+  | _ => false end.
+(* nothing after the last stop-all frame moves anything *)
+Fixpoint quiet_after_last_stop (fs : list (Z * list Z)) : bool :=
+  match fs with
+  | [] => true
+  | f :: t => if existsb is_stop_all t then quiet_after_last_stop t
+              else (* f is the last stop-all or comes after it (or there is none) *)
+                   (if is_stop_all f then negb (existsb is_actuating t) else quiet_after_last_stop t)
+  end.
+
 Definition c18_check (l o : list Z) : bool :=
   match l with
   | 1 :: _ =>
@@ -132,6 +159,9 @@ Definition c18_check (l o : list Z) : bool :=
           (fl =? (if b failsafe then 16 else 0)) && (0 <=? n)
           (* pressing Abort ALWAYS produces stop-all: at least one stop-all frame per Abort press reached the daemon *)
           && Nat.leb (abort_presses (length evs) evs) (length (filter is_stop_all (frames_of (length rest) rest)))
+          (* records are acted upon in the order they arrive: if Abort is held at the end, the lock it engaged is still
+             engaged - nothing after the last stop-all frame moves anything *)
+          && implb (abort_held_at_end (length evs) evs false) (quiet_after_last_stop (frames_of (length rest) rest))
       | _ => false end
   | _ => false end.
 
